@@ -15,10 +15,14 @@ CASE_T_T = "C13.CorrT.case"
 HEADER_L = ("From Coq Require Import ZArith List.\n"
             "From TV Require Import Common.Harness C13.Model C13.Law C13.Corr C13.CorrL.")
 CASE_T_L = "C13.CorrL.case"
-PROPS = ["C13/Props.v", "C13/PropsClassOps.v", "C13/PropsClassOps2.v"]
+HEADER_N = ("From Coq Require Import ZArith List.\n"
+            "From TV Require Import Common.Harness C13.Model C13.Law C13.Corr C13.CorrN.")
+CASE_T_N = "C13.CorrN.case"
+PROPS = ["C13/Props.v", "C13/PropsClassOps.v", "C13/PropsClassOps2.v", "C13/PropsWave4.v"]
 KIND = {0: "Python", 1: "Any", 2: "Disallow", 3: "ReadOnly", 4: "Constant", 5: "Event", 6: "Typed",
         7: "dunder", 8: "no-rule", 9: "add-remove"}
 WHAT = {1: "outcome-class", 2: "value-read", 3: "stored-afterwards (for remove_trait: a value of the removed trait or of its shadow stays behind)",
+        4: "on_trait_change(handler, name) fails", 5: "on_trait_change(handler, name, remove=True) fails",
         9: "outcome not that of the trait found along the MRO (the code merges direct bases depth-first)"}
 NROOTS = 3
 
@@ -32,6 +36,16 @@ POLS = [["Python"], ["Any", 5], ["Any", 200], ["Disallow"], ["ReadOnly"], ["Cons
         ["Event"], ["Typed", "VInt", 7], ["Typed", "VStr", 102], ["Typed", "VCInt", 8], ["ReadOnly"], ["Event"],
         ["ReadOnly", 9], ["Event", "VInt"]]
 VALUES = [0, 1, 5, 6, 3, 101, 104, 104, 200, 201]
+RT_HOW = ["copy", "deepcopy", "pickle2", "pickle"]
+
+
+def maybe_rt(rnd, ctx, p, prob=0.3):
+    """With probability `prob` the definition goes through a __getstate__/__setstate__ round trip first (C13-u1)."""
+    if rnd.random() < prob:
+        how = rnd.choice(RT_HOW)
+        ctx.count("round-trip:%s:%s" % (how, p[0]))
+        return ["RT", how, p]
+    return p
 
 
 # ----- terms ---------------------------------------------------------------
@@ -39,8 +53,17 @@ def name_term(n):
     return [ord(ch) for ch in n]
 
 
+def unrt(p):
+    """The definition under a state round trip ["RT", how, definition] (C13-u1; Model.round_trip is the identity)."""
+    while p[0] == "RT":
+        p = p[2]
+    return p
+
+
 def pol_term(p):
     k = p[0]
+    if k == "RT":
+        return C("round_trip", pol_term(p[2]))
     if k in ("Python", "Disallow"):
         return C("P" + k)
     if k == "ReadOnly":
@@ -75,8 +98,20 @@ def who(op):
     return t if isinstance(t, str) and (t in ("E", "B") or t.startswith("#")) else ""
 
 
+def via(op):
+    t = op[-1]
+    return t[2:] if isinstance(t, str) and t.startswith("V:") else None
+
+
 def op_term(op):
     k = op[0]
+    a = via(op)
+    if a is not None:   # through attribute a of the delegating object (C13-u3; Model.via_get/via_set/via_del)
+        if k == "Get":
+            return C("via_get", name_term(a), name_term(op[1]))
+        if k == "Set":
+            return C("via_set", name_term(a), name_term(op[1]), op[2])
+        return C("via_del", name_term(a), name_term(op[1]))
     if k == "Get":
         return C("OGet", name_term(op[1]))
     if k == "Set":
@@ -110,6 +145,22 @@ def to_term_l(case, obs):
     return (classes, Nat(case["cls"]), [(name_term(q), pol_term(p)) for q, p in case["listener"]], h)
 
 
+def to_term_n(case, obs):
+    """Cases with on_trait_change listeners attached / detached (C13/CorrN.v): one fresh instance of class `cls`."""
+    classes = [C("mkClass", [(name_term(n), pol_term(p)) for n, p in cd["decls"]], [Nat(b) for b in cd["bases"]])
+               for cd in case["classes"]]
+    h = []
+    for op, ob in zip(case["ops"], obs):
+        o = C("mkObs", out_term(ob["out"]), opt(ob["stored"]), opt(ob["shadow"]), opt(ob["base"]))
+        if op[0] == "Listen":
+            h.append((C("NListen", name_term(op[1])), o))
+        elif op[0] == "Unlisten":
+            h.append((C("NUnlisten", name_term(op[1])), o))
+        else:
+            h.append((C("NOp", op_term(op)), o))
+    return (classes, Nat(case["cls"]), h)
+
+
 def to_term_t(case, obs):
     """Cases with add_class_trait (C13/CorrT.v)."""
     classes = [C("mkClass", [(name_term(n), pol_term(p)) for n, p in cd["decls"]], [Nat(b) for b in cd["bases"]])
@@ -140,8 +191,8 @@ def live_instance_trait(case, step, name):
         if who(op) != who(case["ops"][step]):
             continue
         if op[0] == "Add":
-            pols.update(derived(op[1], op[2]))
-            pols[op[1]] = op[2]
+            pols.update(derived(op[1], unrt(op[2])))
+            pols[op[1]] = unrt(op[2])
         elif op[0] == "Rem":
             p = pols.pop(op[1], None)
             if p is not None:
@@ -351,6 +402,7 @@ def random_history(h, rnd, ctx, maxlen):
         elif k == "Add":
             op = [k, n, rnd.choice(POLS)]
             ctx.count("add-policy:" + op[2][0])
+            op[2] = maybe_rt(rnd, ctx, op[2])
         else:
             op = [k, n]
         ctx.count("op:" + k)
@@ -364,7 +416,7 @@ def random_op(rnd, ctx, names, early=False):
     if k == "Set":
         op = [k, n, rnd.choice(VALUES)]
     elif k == "Add":
-        op = [k, n, rnd.choice(POLS)]
+        op = [k, n, maybe_rt(rnd, ctx, rnd.choice(POLS))]
     else:
         op = [k, n]
     ctx.count(("early-op:" if early else "op:") + k)
@@ -414,6 +466,8 @@ def mapped_history(h, rnd, ctx, maxlen):
         else:
             op = ["Del", n]
         ctx.count("mapped-op:" + op[0] + ("-" + op[2][0] if op[0] == "Add" and op[2][0] in ("Map", "List") else ""))
+        if op[0] == "Add":
+            op[2] = maybe_rt(rnd, ctx, op[2])
         ops.append(op + ["B"] if rnd.random() < 0.15 else op)
     return dict(h, ops=ops, kind="mapped")
 
@@ -488,10 +542,10 @@ def classops_history(rnd, ctx, maxlen):
     for _ in range(rnd.randint(4, maxlen)):
         r = rnd.random()
         if r < 0.22:
-            op = ["AddClass", rnd.choice(wild), rnd.choice(CLASS_POLS), NROOTS + rnd.randrange(n)]
+            op = ["AddClass", rnd.choice(wild), maybe_rt(rnd, ctx, rnd.choice(CLASS_POLS)), NROOTS + rnd.randrange(n)]
             ctx.count("classop:add-wildcard")
         elif r < 0.30:
-            op = ["AddClass", rnd.choice(names), rnd.choice(CLASS_POLS), NROOTS + rnd.randrange(n)]
+            op = ["AddClass", rnd.choice(names), maybe_rt(rnd, ctx, rnd.choice(CLASS_POLS)), NROOTS + rnd.randrange(n)]
             ctx.count("classop:add-explicit")
         else:
             nm = rnd.choice(names)
@@ -530,6 +584,144 @@ def classops_corpus():
                "ops": [["AddClass", "c_", I, 3], ["Set", "cax", 101, "#0"], ["Set", "cax", 102, "#0"], ["Get", "cax", "#0"],
                        ["Get", "cz", "#0"], ["Set", "cay", 101, "#1"], ["Set", "cay", 102, "#1"], ["Get", "cz", "#1"]]})
     return cs
+
+
+# ----- fourth wave: state round trip (C13-u1), listeners (C13-u2), delegation (C13-u3) ---------------------------
+RT_POLS = [["Python"], ["Any", 5], ["Disallow"], ["ReadOnly"], ["ReadOnly", 9], ["Constant", 3], ["Event"],
+           ["Event", "VInt"], ["Typed", "VInt", 7], ["Typed", "VStr", 102], ["Typed", "VCInt", 8]]
+
+
+def rt_corpus():
+    """add_trait(name, round_trip(definition)) for every policy kind and every route: the name must be governed
+    exactly as by the original definition (the demo of C13-u1: a ReadOnly definition that was copied)."""
+    cs = []
+    for root in (0, 1, 2):
+        for how in RT_HOW:
+            ops = []
+            for i, pol in enumerate(RT_POLS):
+                n = "r%s" % "abcdefghijk"[i]
+                ops += [["Add", n, ["RT", how, pol]], ["Get", n], ["Set", n, 1], ["Set", n, 2], ["Get", n], ["Set", n, 101],
+                        ["Del", n], ["Get", n]]
+            ops += [["Rem", "rd"], ["Set", "rd", 5], ["Get", "rd"]]
+            cs.append({"classes": [{"decls": [], "bases": [root]}], "cls": 3, "ops": ops, "kind": "round-trip-corpus"})
+            cs.append({"classes": [{"decls": [], "bases": [root]}], "cls": 3, "kind": "round-trip-corpus",
+                       "ops": [["Add", "ab", ["RT", how, MAPS[0]]], ["Get", "ab"], ["Get", "ab_"], ["Set", "ab", 2],
+                               ["Get", "ab_"], ["Set", "ab", 5], ["Add", "b", ["RT", how, ["List"]]], ["Get", "b"],
+                               ["Set", "b_items", 1], ["Rem", "ab"], ["Get", "ab_"], ["Rem", "b"], ["Get", "b_items"]]})
+    return cs
+
+
+def rt_classops_corpus():
+    """add_class_trait(name, round_trip(definition)) (second half of the C13-u1 demo)."""
+    cs = []
+    for root in (0, 1, 2):
+        for how in RT_HOW:
+            ops = []
+            for i, pol in enumerate(RT_POLS):
+                n = "c%s" % "abcdefghijk"[i]
+                ops += [["AddClass", n, ["RT", how, pol], 3], ["Get", n, "#0"], ["Set", n, 1, "#0"], ["Set", n, 2, "#0"],
+                        ["Get", n, "#0"], ["Set", n, 101, "#1"], ["Del", n, "#1"], ["Get", n, "#1"]]
+            ops += [["AddClass", "w_", ["RT", how, ["ReadOnly"]], 3], ["Set", "wx", 1, "#1"], ["Set", "wx", 2, "#1"],
+                    ["Get", "wx", "#1"]]
+            cs.append({"classes": [{"decls": [], "bases": [root]}, {"decls": [], "bases": [3]}], "objs": [3, 4],
+                       "cls": 3, "kind": "round-trip-classops-corpus", "ops": ops})
+    return cs
+
+
+def plain_names(h, rnd):
+    return [n for n in focus_names(h, rnd) if not n.startswith("__")] or ["a"]
+
+
+def delegate_history(h, rnd, ctx, maxlen):
+    """A plain HasTraits object delegating (DelegatesTo, modify semantics, listenable=False, one link) attributes
+    d0, d1, ... to names of the instance under test: declared there, governed by a wildcard only, undeclared.
+    Operations flagged "V:<d>" go through the delegating attribute, the others directly to the instance."""
+    names = sorted(set(plain_names(h, rnd) + rnd.sample(["hue", "ab", "b", "_a", "aab", "ba"], 2)))
+    dl = [["d%d" % i, t, 0] for i, t in enumerate(names)]
+    ops = []
+    for _ in range(rnd.randint(4, maxlen)):
+        a, t, _l = rnd.choice(dl)
+        r = rnd.random()
+        if r < 0.55:
+            q = rnd.random()
+            op = ["Get", t] if q < 0.35 else ["Set", t, rnd.choice(VALUES)] if q < 0.9 else ["Del", t]
+            op.append("V:" + a)
+            ctx.count("delegate-op:via-" + op[0])
+        else:
+            op = random_op(rnd, ctx, names)
+            ctx.count("delegate-op:direct-" + op[0])
+        ops.append(op)
+    return dict(h, ops=ops, delegations=dl, kind="delegate")
+
+
+def delegate_corpus():
+    """The demo of C13-u3: a strict class with size = Int and tmp_ = Str behind a plain delegating object."""
+    cs = []
+    I, S = ["Typed", "VInt", 7], ["Typed", "VStr", 102]
+    dl = [["d0", "size", 0], ["d1", "hue", 0], ["d2", "tmp_note", 0], ["d3", "_p", 0]]
+    for root in (0, 1, 2):
+        for decls in ([["size", I], ["tmp_", S]], [["size", I]], [["tmp_", S], ["_", ["Disallow"]]]):
+            cs.append({"classes": [{"decls": decls, "bases": [root]}], "cls": 3, "delegations": dl, "kind": "delegate-corpus",
+                       "ops": [["Set", "size", 3, "V:d0"], ["Get", "size"], ["Set", "hue", 9, "V:d1"], ["Get", "hue"],
+                               ["Get", "hue", "V:d1"], ["Set", "tmp_note", 5, "V:d2"], ["Set", "tmp_note", 101, "V:d2"],
+                               ["Get", "tmp_note"], ["Set", "_p", 1, "V:d3"], ["Get", "_p", "V:d3"], ["Del", "size", "V:d0"],
+                               ["Get", "size", "V:d0"], ["Set", "hue", 1], ["Set", "other", 2]]})
+    return cs
+
+
+def listen_history(h, rnd, ctx, maxlen):
+    """on_trait_change(handler, name) / on_trait_change(handler, name, remove=True) among the operations of one
+    instance: attaching gives the name an instance trait (a clone of the trait that governs it anyway), detaching
+    changes nothing; an instance trait added with add_trait must survive both."""
+    names = plain_names(h, rnd)
+    ops, live = [], set()
+    for _ in range(rnd.randint(4, maxlen)):
+        n = rnd.choice(names)
+        r = rnd.random()
+        if r < 0.22:
+            op = ["Get", n]
+        elif r < 0.47:
+            op = ["Set", n, rnd.choice(VALUES)]
+        elif r < 0.52:
+            # not once a handler was attached to n (the instance trait keeps its notifier list, even when empty):
+            # setattr_trait's delete branch then computes the notification's new value, which re-materialises
+            # the default in obj.__dict__ (ctraits.c l.2433-2437; notification machinery, outside this property)
+            op = ["Get", n] if n in live else ["Del", n]
+        elif r < 0.66:
+            op = ["Add", n, maybe_rt(rnd, ctx, rnd.choice(POLS), 0.15)]
+        elif r < 0.74:
+            op = ["Rem", n]
+        elif r < 0.89:
+            op = ["Listen", n]
+        else:
+            op = ["Unlisten", n]
+        if op[0] == "Listen":
+            live.add(n)
+        ctx.count("listen-op:" + op[0])
+        ops.append(op)
+    return dict(h, ops=ops, listen=True, kind="listen")
+
+
+def listen_corpus():
+    """The demo of C13-u2: add_trait, attach, detach, then the instance trait must still govern."""
+    cs = []
+    I = ["Typed", "VInt", 7]
+    for root in (0, 1, 2):
+        for pol in (["ReadOnly"], ["Constant", 3], ["Event"], ["Disallow"], ["Typed", "VStr", 102], ["Python"]):
+            cs.append({"classes": [{"decls": [["ab", I], ["b_", ["Any", 5]]], "bases": [root]}], "cls": 3, "listen": True,
+                       "kind": "listen-corpus",
+                       "ops": [["Add", "c", pol], ["Set", "c", 1], ["Listen", "c"], ["Unlisten", "c"], ["Set", "c", 2],
+                               ["Get", "c"], ["Add", "ab", pol], ["Listen", "ab"], ["Unlisten", "ab"], ["Set", "ab", 10],
+                               ["Get", "ab"], ["Rem", "ab"], ["Get", "ab"], ["Set", "ab", 4], ["Get", "ab"], ["Rem", "c"],
+                               ["Get", "c"]]})
+        cs.append({"classes": [{"decls": [["ab", I], ["b_", ["ReadOnly"]]], "bases": [root]}], "cls": 3, "listen": True,
+                   "kind": "listen-corpus",
+                   "ops": [["Listen", "ab"], ["Get", "ab"], ["Set", "ab", 5], ["Unlisten", "ab"], ["Set", "ab", 101],
+                           ["Rem", "ab"], ["Get", "ab"], ["Listen", "bx"], ["Set", "bx", 1], ["Set", "bx", 2], ["Unlisten", "bx"],
+                           ["Set", "bx", 3], ["Rem", "bx"], ["Set", "bx", 3], ["Listen", "zz"], ["Set", "zz", 1], ["Get", "zz"],
+                           ["Unlisten", "zz"], ["Unlisten", "q"], ["Rem", "zz"], ["Rem", "zz"]]})
+    return cs
+
 
 
 def two_instance_history(h, rnd, ctx, maxlen):
@@ -665,12 +857,13 @@ def run(ctx):
             names = ALL_NAMES
             nhist, maxlen, group, nstaged = 6000, 30, 6, 2000
             ctx.cov["exhaustive"] = True
-        cases = corpus() + probe_cases(hiers, names, group, ctx, rnd)
+        cases = corpus() + rt_corpus() + delegate_corpus() + probe_cases(hiers, names, group, ctx, rnd)
         pool = fixed + [gen_hierarchy(rnd, ctx) for _ in range(60 if ctx.tier == "quick" else 600)]
         cases += [random_history(rnd.choice(pool), rnd, ctx, maxlen) for _ in range(nhist)]
         cases += [staged_history(rnd.choice(pool), rnd, ctx, maxlen) for _ in range(nstaged)]
         cases += [two_instance_history(rnd.choice(pool), rnd, ctx, maxlen) for _ in range(nstaged)]
         cases += [mapped_history(rnd.choice(pool), rnd, ctx, maxlen) for _ in range(2 * nstaged)]
+        cases += [delegate_history(rnd.choice(pool), rnd, ctx, maxlen) for _ in range(nstaged)]
         ctx.count("hierarchies", len(hiers) + len(pool))
     for c in cases:
         ctx.count("case:" + c.get("kind", "replay"))
@@ -679,7 +872,7 @@ def run(ctx):
         ctx.sample(c)
     # batches of 7 shards: a coqc on a 1000-case shard needs up to 1.8 GB, and the machine is shared
     BATCH = 7000
-    main_cases = [] if (ctx.replay and ("listener" in cases[0] or "objs" in cases[0])) else cases
+    main_cases = [] if (ctx.replay and ("listener" in cases[0] or "objs" in cases[0] or "listen" in cases[0])) else cases
     for b in range(0, len(main_cases), BATCH):
         hist.run(ctx, "c13_driver.py", main_cases[b:b + BATCH], to_term, HEADER, CASE_T, key_fn, describe, nontrivial,
                  relation="C13.Corr.corr_codes (Model.step = HasTraits attribute access on every step)"
@@ -703,7 +896,7 @@ def run(ctx):
         if ctx.replay:
             tcases = cases
         else:
-            tcases = classops_corpus() + [classops_history(rnd, ctx, maxlen)
+            tcases = classops_corpus() + rt_classops_corpus() + [classops_history(rnd, ctx, maxlen)
                                           for _ in range(200 if ctx.tier == "quick" else 3000)]
             for c in tcases:
                 ctx.count("case:" + c["kind"])
@@ -711,4 +904,18 @@ def run(ctx):
         hist.run(ctx, "c13_driver.py", tcases, to_term_t, HEADER_T, CASE_T_T, key_fn, describe, nontrivial,
                  relation="C13.CorrT.corr_codes (Model.add_class + step = add_class_trait and attribute access)",
                  tag="classops")
+    # on_trait_change listeners attached to / detached from names (C13/CorrN.v)
+    if not ctx.replay or "listen" in cases[0]:
+        if ctx.replay:
+            ncases = cases
+        else:
+            ncases = listen_corpus() + [listen_history(rnd.choice(pool), rnd, ctx, maxlen)
+                                        for _ in range(250 if ctx.tier == "quick" else 4000)]
+            for c in ncases:
+                ctx.count("case:" + c["kind"])
+                ctx.count("probes(ops)", len(c["ops"]))
+        hist.run(ctx, "c13_driver.py", ncases, to_term_n, HEADER_N, CASE_T_N, key_fn, describe, nontrivial,
+                 relation="C13.CorrN.corr_codes (Model.step_n = attribute access with on_trait_change listeners attached "
+                          "and detached)",
+                 tag="listen")
     proof_gate(ctx, ok, log, PROPS)
